@@ -65,6 +65,13 @@ CHECKS.update({
    technique="Coq invariant proof over the B+tree model (insert/split/root split/delete/unlink) + per-step differential correspondence",
    ref="DESIGN.md section 6 C03"),
 })
+CHECKS.update({
+ "C14": dict(
+   text="Theorems C14_btree_search and C14_bucket_search (the two binary searches, transcribed literally with their fuel, find the right child / the key or its insertion point on sorted input, and only probe stored keys), C14_probes_are_stored_keys, C14_atomic (an operation is its comparison phase followed by its change: if the n-th comparison raises nothing has been modified). The harness records the sequence of stored keys every lookup/insert/delete compares with and checks it against the model for C and Python, and fails EVERY comparison of every operation kind (lookup, insert, replace, delete, range search, minKey, union/intersection/difference, conflict merge) in turn: exception propagated, contents before-or-after, _check(), check(), chain walk, follow-up calls.",
+   note="Partial: that all comparisons precede all modifications is a property of the code's control flow which the model states by construction (cmp_trace then change); it is tied to the code by the probe-sequence correspondence and the exhaustive failure injection, not by a proof about the C text. Finding F13 (comparison after the change in delete) was repaired. Reference counts on the failure paths belong to C16. Print Assumptions: closed.",
+   technique="Coq proof of the literal binary searches + probe-sequence correspondence + exhaustive comparison-failure injection",
+   ref="DESIGN.md section 6 C14"),
+})
 NOT_YET = {}
 
 def main():
